@@ -63,23 +63,39 @@ def _failure_source(prog, f):
     return pred
 
 
+def _absent_edge(test, container="self.config_map"):
+    """Edge kind ('t'/'f') of a membership test on `container` that is taken when the name is NOT registered."""
+    neg = False
+    while isinstance(test, ast.UnaryOp) and isinstance(test.op, ast.Not):
+        test, neg = test.operand, not neg
+    if isinstance(test, ast.Compare) and len(test.ops) == 1 and unparse(test.comparators[0]) == container:
+        if isinstance(test.ops[0], ast.NotIn):
+            return "f" if neg else "t"
+        if isinstance(test.ops[0], ast.In):
+            return "t" if neg else "f"
+    return None
+
+
+def _none_edge(test, expr="self._connector"):
+    """Edge kind ('t'/'f') of a test of `expr` against None (or its truthiness) that is taken when it IS None."""
+    neg = False
+    while isinstance(test, ast.UnaryOp) and isinstance(test.op, ast.Not):
+        test, neg = test.operand, not neg
+    if unparse(test) == expr:
+        return "t" if neg else "f"
+    if isinstance(test, ast.Compare) and len(test.ops) == 1 and unparse(test.left) == expr and unparse(test.comparators[0]) == "None":
+        if isinstance(test.ops[0], (ast.Is, ast.Eq)):
+            return "f" if neg else "t"
+        if isinstance(test.ops[0], (ast.IsNot, ast.NotEq)):
+            return "t" if neg else "f"
+    return None
+
+
 def r1(ctx):
     p = ctx.prog
     # --- manager: test `deployment_name not in self.config_map` -> claim
     f = p.func(f"{MGR}._deploy")
     g = f.cfg
-    # membership tests on config_map; `absent` is the edge kind taken when the name is NOT registered
-    def _absent_edge(test):
-        neg = False
-        while isinstance(test, ast.UnaryOp) and isinstance(test.op, ast.Not):
-            test, neg = test.operand, not neg
-        if isinstance(test, ast.Compare) and len(test.ops) == 1 and unparse(test.comparators[0]) == "self.config_map":
-            if isinstance(test.ops[0], ast.NotIn):
-                return "f" if neg else "t"
-            if isinstance(test.ops[0], ast.In):
-                return "t" if neg else "f"
-        return None
-
     members = {n.id: _absent_edge(n.ast) for n in g.nodes.values() if n.kind == "test" and _absent_edge(n.ast)}
     claims = [
         n
@@ -130,31 +146,12 @@ def r1(ctx):
                 instance=f"_deploy:guard:{unparse(c.ast.targets[0])}",
                 message="the claim is not confined to the branch where the name is not registered yet" if g.dominates(t.id, c.id) else "",
             )
-    # --- FutureConnector delegating methods: identical claim idiom
+    # --- FutureConnector delegating methods: identical claim idiom (in the method itself or in a guard helper it awaits first)
     cls = p.cls(FUT)
-    idiom_methods = []
-    for m in cls.methods.values():
-        if not m.is_async or m.name in ("deploy", "undeploy", "_safe_deploy_event_wait"):
-            continue
-        uses = [n for n in m.body_nodes() if isinstance(n, ast.Attribute) and unparse(n).startswith("self._connector.")]
-        if not uses:
-            continue
-        idiom_methods.append(m)
+
+    def claim_idiom(m):
+        """(ok, msg): on the `_connector is None` branch: not deploying -> flag set before the first await -> deploy(); else wait."""
         g = m.cfg
-        use_nodes = [n for n in g.nodes.values() if any(
-            isinstance(x, ast.Attribute) and isinstance(x.value, ast.Attribute) and unparse(x.value) == "self._connector"
-            for x in n.walk())]
-        # (a) every use of self._connector.<x> is dominated by the None-test
-        tests = [n for n in g.nodes.values() if n.kind == "test" and "self._connector is None" in n.text()]
-        helper = [n for n in g.nodes.values() if any(
-            isinstance(c.func, ast.Attribute) and c.func.attr.startswith("_ensure") for c in n.calls())]
-        guard_ids = [n.id for n in tests + helper]
-        ok_dom = bool(guard_ids) and all(g.dominates(guard_ids, u.id) for u in use_nodes)
-        ctx.ob("R1", f"{m.name}: uses of the inner connector are preceded by the deployed-test", ok_dom,
-               func=m, node=m.node, instance=f"{m.name}:none-test")
-        if helper and not tests:
-            continue
-        # (b) on the None branch: not deploying -> flag set before the first await -> deploy(); else wait helper
         flag_tests = [n for n in g.nodes.values() if n.kind == "test" and "self.deploying" in n.text()]
         sets = [n for n in g.nodes.values() if n.kind == "stmt" and isinstance(n.ast, ast.Assign)
                 and unparse(n.ast.targets[0]) == "self.deploying" and unparse(n.ast.value) == "True"]
@@ -162,22 +159,70 @@ def r1(ctx):
             isinstance(c.func, ast.Attribute) and unparse(c.func) == "self.deploy" for c in n.calls())]
         waits = [n for n in g.nodes.values() if any(
             isinstance(c.func, ast.Attribute) and unparse(c.func) == "self._safe_deploy_event_wait" for c in n.calls())]
-        ok = bool(flag_tests and sets and deploys and waits)
-        msg = "claim idiom incomplete"
-        if ok:
-            ft, st, dp = flag_tests[0], sets[0], deploys[0]
-            susp = g.suspension_nodes() - {dp.id}
-            # no suspension between flag test and flag set; set dominates deploy
-            between = g.reach([ft.id], avoid=[st.id]) & susp
-            reaches_set = {s for s in between if st.id in g.reach([s])}
-            if reaches_set:
-                ok, msg = False, f"suspension `{g.nodes[min(reaches_set)].text()}` between the `deploying` test and its assignment"
-            elif not g.dominates(st.id, dp.id):
-                ok, msg = False, "`self.deploying = True` does not precede `self.deploy()` on every path"
-            elif any(w.id in g.reach([st.id]) for w in waits) and not all(g.dominates(ft.id, w.id) for w in waits):
-                ok, msg = False, "waiter branch not guarded by the `deploying` test"
-            elif not all(g.path(ft.id, [w.id], avoid=[st.id]) for w in waits):
-                ok, msg = False, "no waiting branch for concurrent callers"
+        if not (flag_tests and sets and deploys and waits):
+            return False, "claim idiom incomplete"
+        ft, st, dp = flag_tests[0], sets[0], deploys[0]
+        susp = g.suspension_nodes() - {dp.id}
+        # no suspension between flag test and flag set; set dominates deploy
+        between = g.reach([ft.id], avoid=[st.id]) & susp
+        reaches_set = {s for s in between if st.id in g.reach([s])}
+        if reaches_set:
+            return False, f"suspension `{g.nodes[min(reaches_set)].text()}` between the `deploying` test and its assignment"
+        if not g.dominates(st.id, dp.id):
+            return False, "`self.deploying = True` does not precede `self.deploy()` on every path"
+        if any(w.id in g.reach([st.id]) for w in waits) and not all(g.dominates(ft.id, w.id) for w in waits):
+            return False, "waiter branch not guarded by the `deploying` test"
+        if not all(g.path(ft.id, [w.id], avoid=[st.id]) for w in waits):
+            return False, "no waiting branch for concurrent callers"
+        return True, ""
+
+    def none_tests(m):
+        return [n for n in m.cfg.nodes.values() if n.kind == "test" and _none_edge(n.ast)]
+
+    def uses_inner(m):
+        return any(isinstance(n, ast.Attribute) and unparse(n).startswith("self._connector.") for n in m.body_nodes())
+
+    # guard helpers: methods that carry the deployed-test and the claim idiom but do not delegate themselves
+    helpers = {}
+    for m in cls.methods.values():
+        if m.is_async and m.name not in ("deploy", "undeploy", "_safe_deploy_event_wait") and not uses_inner(m) and none_tests(m):
+            hg = m.cfg
+            nt = none_tests(m)
+            ok, msg = claim_idiom(m)
+            # the idiom must lie on the `is None` branch and the helper must end with the connector deployed or an exception:
+            # every normal exit passes the test's false edge or a deploy()/wait call
+            work = [n.id for n in hg.nodes.values() if any(isinstance(c.func, ast.Attribute) and unparse(c.func) in ("self.deploy", "self._safe_deploy_event_wait") for c in n.calls())]
+            falses = [b for t in nt for b, k in hg.succ[t.id] if k in ("t", "f") and k != _none_edge(t.ast)]
+            if ok and hg.path(hg.entry, [hg.exit], avoid=work + falses) is not None:
+                ok, msg = False, "a path leaves the helper without deploying or waiting although the connector is missing"
+            helpers[m.name] = (ok, msg)
+            ctx.ob("R1", f"{m.name} (guard helper): test-and-set of `deploying` is atomic and exclusive", ok, func=m, node=m.node,
+                   instance=f"{m.name}:claim", message=f"{m.name}: {msg}")
+    idiom_methods = []
+    for m in cls.methods.values():
+        if not m.is_async or m.name in ("deploy", "undeploy", "_safe_deploy_event_wait") or not uses_inner(m):
+            continue
+        idiom_methods.append(m)
+        g = m.cfg
+        use_nodes = [n for n in g.nodes.values() if any(
+            isinstance(x, ast.Attribute) and isinstance(x.value, ast.Attribute) and unparse(x.value) == "self._connector"
+            for x in n.walk())]
+        # (a) every use of self._connector.<x> is dominated by the None-test (own, or an awaited guard helper)
+        tests = none_tests(m)
+        helper = [n for n in g.nodes.values() if n.has_await() and any(
+            isinstance(c.func, ast.Attribute) and isinstance(c.func.value, ast.Name) and c.func.value.id == "self" and c.func.attr in helpers
+            for c in n.calls())]
+        guard_ids = [n.id for n in tests + helper]
+        ok_dom = bool(guard_ids) and all(g.dominates(guard_ids, u.id) for u in use_nodes)
+        ctx.ob("R1", f"{m.name}: uses of the inner connector are preceded by the deployed-test", ok_dom,
+               func=m, node=m.node, instance=f"{m.name}:none-test")
+        if helper and not tests:
+            hn = [c.func.attr for n in helper for c in n.calls() if isinstance(c.func, ast.Attribute) and c.func.attr in helpers][0]
+            ok, msg = helpers[hn]
+            ctx.ob("R1", f"{m.name}: test-and-set of `deploying` is atomic and exclusive (through {hn})", ok, func=m, node=m.node,
+                   instance=f"{m.name}:claim", message=f"{m.name}: {msg}")
+            continue
+        ok, msg = claim_idiom(m)
         ctx.ob("R1", f"{m.name}: test-and-set of `deploying` is atomic and exclusive", ok, func=m, node=m.node,
                instance=f"{m.name}:claim", message=f"{m.name}: {msg}")
     ctx.require(len(idiom_methods) >= 8, f"C26.R1: only {len(idiom_methods)} delegating FutureConnector methods found (floor 8)")
@@ -197,7 +242,9 @@ def r2(ctx):
     pred = _failure_source(p, f)
     # successors of the creation node (the creation itself is not a failure source)
     # the waiting branch (test false) is not an exit of the claiming branch
-    tests = [n.id for n in g.nodes.values() if n.kind == "test" and "not in self.config_map" in n.text(300)]
+    absent = {n.id: _absent_edge(n.ast) for n in g.nodes.values() if n.kind == "test" and _absent_edge(n.ast)}
+    # the claim test: the membership test that guards the creation of the event
+    tests = [t for t in absent if g.dominates(t, src) and g.path(t, [src], avoid=[m for m in absent if m != t])]
     w = g.escape(src, sets + tests, kinds=ALL, exc_from=pred, targets=[g.exit, g.raise_])
     ctx.ob("R2", "_deploy: every exit of the claiming branch (incl. failure edges) sets the deployment event",
            w is None, func=f, node=(g.nodes[w[-2]].ast if w and len(w) > 1 else creates[0].ast),
@@ -229,7 +276,7 @@ def r2(ctx):
         in_claim = any(n.id in g.reach([src]) for _ in [0])
         if not in_claim:
             continue
-        if _in_wait_branch(g, n, tests):
+        if _in_wait_branch(g, n, tests, absent):
             continue
         ctx.ob("R2", f"_deploy: failure of `{n.text(70)}` sets the event", bad is None, func=f, node=n.ast,
                instance=f"_deploy:fail:{n.text(90)}",
@@ -277,11 +324,12 @@ def _first_raiser(g, w):
     return w[-2] if len(w) > 1 else w[0]
 
 
-def _in_wait_branch(g, n, tests) -> bool:
-    """n is only reachable through the false edge of the claim test."""
+def _in_wait_branch(g, n, tests, absent=None) -> bool:
+    """n is only reachable through the `already registered` edge of the claim test."""
     for t in tests:
-        false_succ = [b for b, k in g.succ[t] if k == "f"]
-        true_succ = [b for b, k in g.succ[t] if k == "t"]
+        ak = (absent or {}).get(t, "t")
+        false_succ = [b for b, k in g.succ[t] if k in ("t", "f") and k != ak]
+        true_succ = [b for b, k in g.succ[t] if k == ak]
         in_false = any(n.id == b or n.id in g.reach([b], avoid=[t]) for b in false_succ)
         in_true = any(n.id == b or n.id in g.reach([b], avoid=[t]) for b in true_succ)
         if in_false and not in_true:
@@ -298,11 +346,11 @@ def r3(ctx):
     ctx.require(bool(waits), "C26.R3: waiting branch not found in _deploy")
     for wn in waits:
         # after the wait: every path to exit passes a test of deployments_map membership whose true/false branch raises
-        chk = [n for n in g.nodes.values() if n.kind == "test" and "not in self.deployments_map" in n.text(200)]
+        chk = [n for n in g.nodes.values() if n.kind == "test" and _absent_edge(n.ast, "self.deployments_map")]
         ok = bool(chk) and all(g.escape(wn.id, [c.id for c in chk], kinds=NORMAL) is None for _ in [0])
         raises = False
         for c in chk:
-            tsucc = g.real_succ(c.id, "t")
+            tsucc = g.real_succ(c.id, _absent_edge(c.ast, "self.deployments_map"))
             raises = raises or any(g.nodes[b].kind == "raise_stmt" or (g.exit not in g.reach([b], include_src=True)) for b in tsucc)
         ctx.ob("R3", "_deploy: a waiter re-checks deployments_map after the wait and raises when absent", ok and raises,
                func=f, node=wn.ast, instance="_deploy:waiter",
@@ -311,9 +359,9 @@ def r3(ctx):
     g = f.cfg
     waits = [n for n in g.nodes.values() if any(
         isinstance(c.func, ast.Attribute) and c.func.attr == "wait" for c in n.calls())]
-    chk = [n for n in g.nodes.values() if n.kind == "test" and "self._connector is None" in n.text()]
+    chk = [n for n in g.nodes.values() if n.kind == "test" and _none_edge(n.ast)]
     ok = bool(waits) and bool(chk) and g.escape(waits[0].id, [c.id for c in chk]) is None
-    raises = any(g.nodes[b].kind == "raise_stmt" for c in chk for b in g.real_succ(c.id, "t"))
+    raises = any(g.nodes[b].kind == "raise_stmt" for c in chk for b in g.real_succ(c.id, _none_edge(c.ast)))
     ctx.ob("R3", "_safe_deploy_event_wait raises when the connector is missing after the wait", ok and raises,
            func=f, node=f.node, instance="future:waiter")
     # failure path of FutureConnector.deploy leaves _connector None
@@ -367,9 +415,20 @@ def r4(ctx):
     gi = fi.cfg
     adds = [n.id for n in gi.nodes.values() if any(
         isinstance(c.func, ast.Attribute) and c.func.attr == "add" and "self.dependency_graph[" in unparse(c.func.value) for c in n.calls())]
-    wires = [n for n in gi.nodes.values() if n.kind == "return" and any(
-        isinstance(x, ast.Subscript) and unparse(x.value) == "self.deployments_map" for x in n.walk())]
-    ctx.require(bool(wires), "C26.R4: the return that injects the wrapped connector was not found in _inner_deploy")
+    # the statement that takes the wrapped connector out of deployments_map (the injecting return, or a temporary before it)
+    def _takes_connector(n):
+        if n.kind == "stmt" and not isinstance(n.ast, (ast.Assign, ast.AnnAssign)):
+            return False
+        for x in n.walk():
+            if isinstance(x, ast.Subscript) and isinstance(x.ctx, ast.Load) and unparse(x.value) == "self.deployments_map":
+                par = getattr(x, "_parent", None)
+                if isinstance(par, ast.Call) and isinstance(par.func, ast.Name) and par.func.id in ("type", "isinstance"):
+                    continue  # only the class of the connector is looked at
+                return True
+        return False
+
+    wires = [n for n in gi.nodes.values() if n.kind in ("return", "stmt") and _takes_connector(n)]
+    ctx.require(bool(wires), "C26.R4: the read of the wrapped connector from deployments_map was not found in _inner_deploy")
     for wnode in wires:
         okw = bool(adds) and gi.dominates(adds, wnode.id)
         wit = gi.path(gi.entry, [wnode.id], avoid=adds) if not okw else None
